@@ -1,7 +1,11 @@
-// Kani harnesses for unit cmp_k (compare_position, overlaps in bbi/bbiread.rs).
-// Included as a child module of bbiread.rs (`#[cfg(kani)] mod verif_kani_cmp_k`), so
-// `super::` reaches the private functions.  The contracts themselves are the attribute
-// lines in kani.toml ([[contract]]), inserted above the real fns in the scratch copy.
+// Kani harnesses for unit cmp_k (compare_position, overlaps in bigtools/src/bbi/bbiread.rs).
+// Included as `#[cfg(kani)] mod verif_kani_cmp_k` at the end of bbiread.rs in the scratch copy,
+// so `super::` reaches the private functions.  The CONTRACTS are the attribute lines listed in
+// kani.toml ([[contract]]), inserted immediately above the real fns (insert-only); the
+// proof_for_contract harnesses below make Kani check them over full-width symbolic u32s.
+// No assumptions: neither function has a precondition.
+
+include!("spec.rs");
 
 #[kani::proof_for_contract(super::compare_position)]
 fn cmp_k_compare_position() {
@@ -24,4 +28,32 @@ fn cmp_k_overlaps() {
     let b2e: u32 = kani::any();
     let _r = super::overlaps(q, qs, qe, b1, b1s, b2, b2e);
     kani::cover!(true, "reach_overlaps");
+}
+
+// Counterexample twins.  NOT deciding harnesses (kani.toml lists them only as `cex_harness`):
+// when a contract harness above fails, the runner re-runs the plain twin with concrete playback
+// to obtain values — playback through the contract instrumentation takes ~190 s for these
+// functions, through a plain harness ~5 s.  Same inputs in the same order, same statement
+// (spec.rs), real function.
+#[kani::proof]
+fn cmp_k_compare_position_cex() {
+    let c1: u32 = kani::any();
+    let b1: u32 = kani::any();
+    let c2: u32 = kani::any();
+    let b2: u32 = kani::any();
+    kani::cover!(true, "reach_compare_position_cex");
+    assert!(super::compare_position(c1, b1, c2, b2) == spec_compare_position(c1, b1, c2, b2), "compare_position is the sign of the lexicographic order");
+}
+
+#[kani::proof]
+fn cmp_k_overlaps_cex() {
+    let q: u32 = kani::any();
+    let qs: u32 = kani::any();
+    let qe: u32 = kani::any();
+    let b1: u32 = kani::any();
+    let b1s: u32 = kani::any();
+    let b2: u32 = kani::any();
+    let b2e: u32 = kani::any();
+    kani::cover!(true, "reach_overlaps_cex");
+    assert!(super::overlaps(q, qs, qe, b1, b1s, b2, b2e) == spec_overlaps(q, qs, qe, b1, b1s, b2, b2e), "overlaps iff query start <= block end and block start <= query end (lexicographic)");
 }
